@@ -36,10 +36,49 @@ def tmp_origin(d, e):
     return None
 
 
+def _sig_digits(fmt):
+    """significant decimal digits kept by a printf float format; None when not a float format"""
+    import re
+
+    m = re.fullmatch(r"%[-+ #0]*\d*(?:\.(\d+))?([eEgGfF])", fmt)
+    if not m:
+        return None
+    prec = int(m.group(1)) if m.group(1) is not None else 6
+    kind = m.group(2).lower()
+    if kind == "e":
+        return prec + 1
+    if kind == "g":
+        return max(prec, 1)
+    return None  # %f keeps a fixed number of decimals: not a guarantee on significant digits
+
+
+def lossless_format(res, rid, repo, f, w, name):
+    """the text written to the cache must read back as the very float64 values that the computing
+    call returned (>= 17 significant digits), else the call that fills the cache and every later
+    call / process that loads it work from different tables"""
+    fn = U(w.func)
+    if fn not in ("np.savetxt", "numpy.savetxt"):
+        res.ok(rid, f"{name} cache writer keeps full precision", f"`{fn}` is a binary writer")
+        return
+    fmt = next((k.value for k in w.keywords if k.arg == "fmt"), w.args[2] if len(w.args) > 2 else None)
+    if fmt is None:
+        res.ok(rid, f"{name} cache writer keeps full precision", "np.savetxt default format %.18e round-trips float64", repo.loc(f, w))
+        return
+    if isinstance(fmt, ast.Constant) and isinstance(fmt.value, str):
+        dg = _sig_digits(fmt.value)
+        if dg is not None and dg >= 17:
+            res.ok(rid, f"{name} cache writer keeps full precision", f"format {fmt.value!r} keeps {dg} significant digits", repo.loc(f, w))
+        else:
+            res.bad(rid, f"{name} cache writer keeps full precision", f"np.savetxt(..., fmt={fmt.value!r}) keeps {dg if dg is not None else 'a fixed number of decimal'} digits (< 17 significant): the table loaded from the cache differs from the one returned by the call that computed it, so identical calls give different dates before and after the cache exists", repo.loc(f, w))
+    else:
+        res.unres(rid, f"{name} cache writer keeps full precision", f"format `{U(fmt)}` is not a literal", repo.loc(f, w))
+
+
 def run(repo, res):
     res.rule("R36.1", "atomic publish: no write goes straight to a path obtained from get_precalc_cache(); writes go to a per-writer-unique temporary in the same directory and are followed, after the file is closed/flushed, by os.replace(tmp, final)")
     res.rule("R36.2", "the reader of the cache either relies on R36.1 or validates the loaded table's shape and falls back to recomputation")
     res.rule("R36.3", "the table returned after a fresh computation is the very array that was written")
+    res.rule("R36.4", "the cache text format is lossless for float64 (np.savetxt default or >= 17 significant digits): loading the cache gives exactly the table the computing call used")
     cls_funcs = [(q, f) for m, q, f in repo.all_funcs() if m == "prior"]
     # every writer / opener / reader in the package that touches a cache path
     n_writes = 0
@@ -125,6 +164,7 @@ def run(repo, res):
             same = all(U(x.value) == U(arr) for x in rets)
             rebound = isinstance(arr, ast.Name) and len([v for v in d.values(arr.id)]) > 1
             res.require(same and not rebound, "R36.3", f"{name} returns the array it wrote", f"writes `{U(arr)}` but returns `{U(rets[-1].value)}`" + (" (rebound)" if rebound else ""), repo.loc(f, rets[-1]), U(arr))
+        lossless_format(res, "R36.4", repo, f, w, name)
     if n_writes == 0:
         raise AnalysisError("R36.1: no write of the prior cache found (anchor vanished)")
     res.count("cache_write_sites", n_writes)
@@ -174,6 +214,8 @@ _OLD_WRITE = '''        filename = self.get_precalc_cache(n)
         return prior_lookup_table
 '''
 VARIANTS = [
+    dict(name="cache-rounded-on-write", mod="prior", expect="fire", rule="R36.4", old="                np.savetxt(f, prior_lookup_table)\n", new="                np.savetxt(f, prior_lookup_table, fmt=\"%.9g\")\n"),
+    dict(name="twin-cache-explicit-full-precision", mod="prior", expect="silent", old="                np.savetxt(f, prior_lookup_table)\n", new="                np.savetxt(f, prior_lookup_table, fmt=\"%.17e\")\n"),
     dict(name="direct-savetxt", mod="prior", expect="fire", rule="R36.1", old=_OLD_WRITE,
          new="        np.savetxt(self.get_precalc_cache(n), prior_lookup_table)\n        return prior_lookup_table\n"),
     dict(name="open-final-for-write", mod="prior", expect="fire", rule="R36.1", old=_OLD_WRITE,
